@@ -153,6 +153,33 @@ theorem cuminc_monotone_bounded (p : SurvGF.Plan) (rows : List (LRow F))
       (cumInc p rows)[i]? = some ci → (cumInc p rows)[j]? = some cj → ci ≤ cj) :=
   ⟨SurvL.cumInc_bounded p rows hh, fun i j ri rj ci cj => SurvL.cumInc_monotone p rows hh i j ri rj ci cj⟩
 
+/-- **A plan means the arm it assigns to each record.**  Two plans under which every record gets the same predicted
+    hazard (i.e. the same arm wherever the two arms' hazards differ) give the same `predicted_df[outcome]` and the same
+    marginal curve.  In particular a custom condition that every record meets is treat-all, one that no record meets is
+    treat-none, and the condition "the observed treatment is 1" is the natural course — whatever the outcome model. -/
+theorem plan_same_assignment (p q : SurvGF.Plan) (rows : List (LRow F))
+    (h : ∀ r ∈ rows, hazard p r = hazard q r) :
+    cumInc p rows = cumInc q rows ∧ ∀ t, marginalAt p rows t = marginalAt q rows t := by
+  have hc : cumInc p rows = cumInc q rows := by
+    unfold cumInc
+    congr 2
+    apply List.map_congr_left
+    intro r hr
+    rw [h r (SurvL.mem_prep hr)]
+  exact ⟨hc, fun t => by unfold marginalAt; rw [hc]⟩
+
+/-- the three named plans as custom conditions -/
+theorem custom_plan_named (rows : List (LRow F)) :
+    ((∀ r ∈ rows, r.c = true) → cumInc .custom rows = cumInc .all rows ∧
+      ∀ t, marginalAt .custom rows t = marginalAt .all rows t) ∧
+    ((∀ r ∈ rows, r.c = false) → cumInc .custom rows = cumInc .none rows ∧
+      ∀ t, marginalAt .custom rows t = marginalAt .none rows t) ∧
+    ((∀ r ∈ rows, r.c = r.a) → cumInc .custom rows = cumInc .natural rows ∧
+      ∀ t, marginalAt .custom rows t = marginalAt .natural rows t) :=
+  ⟨fun h => plan_same_assignment _ _ rows fun r hr => by simp [hazard, h r hr],
+   fun h => plan_same_assignment _ _ rows fun r hr => by simp [hazard, h r hr],
+   fun h => plan_same_assignment _ _ rows fun r hr => by simp [hazard, h r hr]⟩
+
 /-! ### Non-vacuity: the hypotheses are met by concrete, non-trivial inputs (carrier `ℚ`) -/
 section examples
 open ZV.SurvGF
@@ -242,6 +269,10 @@ example : marginalAt (F := ℚ) .all exLong 2 = productLimit exLong true 2 ∧ p
 /-- `cuminc_monotone_bounded` applies to `exLong` under every plan -/
 example (p : SurvGF.Plan) : ∀ c ∈ cumInc p exLong, (0 : ℚ) ≤ c ∧ c ≤ 1 :=
   (cuminc_monotone_bounded p exLong (by cases p <;> decide +kernel)).1
+
+/-- `custom_plan_named` applies to `exLong` (no record meets the condition: treat-none), and differs from treat-all -/
+example : cumInc (F := ℚ) .custom exLong = cumInc .none exLong ∧ cumInc (F := ℚ) .custom exLong ≠ cumInc .all exLong :=
+  ⟨((custom_plan_named exLong).2.1 (by decide +kernel)).1, by decide +kernel⟩
 
 end examples
 
